@@ -18,4 +18,29 @@ func init() {
 		"(view.index) all index-addressed accesses of all container views (six fork states and every sub-view) use an in-range constant index, apply a wrapper whose shape matches FieldDef[i], and an accessor named after a field never indexes another field; (view.iota) index-constant blocks are dense, complete, and spell the descriptor's field order; (view.raw) Raw() rebuilds each struct field from the index of that field; (view.build)/(lit.copy) positional constructors and same-name field copies do not cross fields; (view.elem) typed sub-views write elements of the right width; (ssz.descriptor) the descriptor the indices refer to is the struct's schema.",
 		"that ztyp's persistent tree keeps copies independent (trusted); independence of EpochsContext clones is decided under C08 rules; value-level getter/setter round trips.",
 		"view.index", "view.iota", "view.raw", "view.build", "view.elem", "lit.copy", "ssz.descriptor")
+
+	prop("C09",
+		"(idx.units) every weight / best-child / best-descendant update and every delta addresses the node it means: absolute NodeIndex values are never used as positions in the live window, offset subtractions are guarded against pruned nodes, stored links are absolute; parent links to pruned nodes are skipped; (args.order) justified/finalized checkpoints and epochs are not passed crosswise through the wrapper layers; (lock.held/lock.reentry) the wrapper holds its lock around every graph/vote access and never re-enters it.",
+		"that the maintained weights and links select the LMD-GHOST winner over histories; vote replacement rules in the vote store; viability filtering semantics.",
+		"idx.units", "args.order@forkchoice.|proto.|fctest.", "lock.held@forkchoice.", "lock.reentry@forkchoice.")
+	prop("C10",
+		"(lock.reentry) no path of UpdateJustified/updateJustified re-acquires the wrapper mutex, so the call returns; (args.order) the checkpoint pair is passed in the callee's parameter order; (prune.together) OnPrune notifies the sink for the node at each loop position with the flag of that same node, updates nodes/indices/indexOffset together per pruned node, prunes without a sink, and does not delete the anchor's own block-slot entry; (loop.stuck) no loop indexes with a counter that never advances; (idx.units) operations after a prune skip links to pruned parents and use relative positions.",
+		"that exactly the non-descendants of the finalized node are dropped (the implementation prunes by insertion order - a design choice, see DESIGN.md); head-stays-in-finalized-subtree; refusal of conflicting checkpoints beyond the structural calls.",
+		"lock.reentry@forkchoice.", "args.order@forkchoice.|proto.|fctest.", "prune.together", "loop.stuck", "idx.units")
+	prop("C11",
+		"(idx.units) every query path (CanonicalChain, CanonAtSlot, Search, InSubtree/inSubtree, FindHead) reaches nodes through offset-corrected, guarded positions; (index.guard) getNode refuses index == len.",
+		"agreement of each query with a reference walk of the inserted tree; the best-descendant shortcut's validity for all tree shapes.",
+		"idx.units", "index.guard")
+	prop("C16",
+		"(cache.parent) every answer taken from a parent cache is confined to the trusted prefix (argument test for index-keyed, result test for key-keyed lookups), so a handle never reports an entry that exists only on a sibling history; (cache.recursion) AddValidator recurses only into a fresh child{parent: receiver, trustedParentCount: conflicting index}, the parent chain is acyclic, the append is preceded by the next-index check, the no-op returns the receiver; (cache.deposit) deposit processing guards hits with the state's validator count and keeps the returned handle.",
+		"exactness of lookups over arbitrary fork trees of histories; concurrent use (C17).",
+		"cache.parent", "cache.recursion", "cache.deposit")
+	prop("C17",
+		"(lock.held) for the seven mutex-carrying types (fork-choice wrapper, pubkey cache, four operation pools, sync-committee pool) every exported method holds the mutex at every access of mutable state on every path, with write mode for writes and mutating calls, helpers that need the lock are only called under it, and every acquisition is released; (lock.reentry) no same-receiver re-acquisition on any call path; (lock.atomic) check-then-act across separate critical sections; (lazy.init) unsynchronised lazy stores on values handed out by shared containers.",
+		"linearizability of results; races inside ztyp/BLS; fairness. Two recorded findings remain (PubkeyCache.AddValidator check-then-act, CachedPubkey lazy decompression).",
+		"lock.held", "lock.reentry", "lock.atomic", "lazy.init")
+	prop("C20",
+		"(map.init) every map field that a pool method index-assigns is allocated by the constructor; (nil.maplookup) pointers from map lookups are nil/ok-tested before dereference; (lock.held) pool methods hold the pool lock around index access.",
+		"that returned items are exactly what was added over histories; aggregate OR-ing of participants; pruning exactness.",
+		"map.init@pool.", "nil.maplookup@pool.", "lock.held@pool.")
 }
